@@ -342,6 +342,31 @@ fn gen_f<F: Fld>(rng: &mut Rng, n: usize, emit: &mut dyn FnMut(String)) {
             emit(format!("{} rexp {} {}", f, a, e));
         }
     }
+    // exponent boundaries: every power of two and its neighbours (loop bounds, fast paths and
+    // early exits of the exponentiation ladders), plus the word boundaries
+    let mut exps: Vec<u128> = bnd.clone();
+    for k in 0..bits {
+        let b = 1u128 << k;
+        exps.push(b);
+        exps.push(b.wrapping_sub(1));
+        exps.push(b + 1);
+    }
+    exps.push(if bits == 128 { u128::MAX } else { (1u128 << bits) - 1 });
+    exps.sort();
+    exps.dedup();
+    let exp_bases: Vec<u128> = {
+        let mut v = vec![F::from_word(2).raw_word(), F::from_word(3).raw_word(), F::from_word(7).raw_word(), F::from_word(m - 1).raw_word()];
+        for _ in 0..3 {
+            v.push(rnd_raw(rng));
+        }
+        v
+    };
+    for a in &exp_bases {
+        for e in &exps {
+            let e = if bits == 64 { e & 0xFFFFFFFFFFFFFFFF } else { *e };
+            emit(format!("{} rexp {} {}", f, a, e));
+        }
+    }
     for a in &bnd {
         emit(format!("{} tryfrom {}", f, a));
         let nb = F::ELEMENT_BYTES;
@@ -422,7 +447,7 @@ impl Prop for P {
     }
     fn rule(&self) -> &'static str {
         "boundary products (0,1,p-1,p-2,(p±1)/2,2^k±d, 2^64-2^32±d, p, p+1, 2p-1 as raw words of the 62-bit field, …) of residues and of raw internal \
-         words for every binary op, every unary op/conversion on every boundary word, plus seeded random operands and random operation \
+         words for every binary op, every unary op/conversion on every boundary word, exponents 2^k and 2^k±1 for every k plus the word boundaries on several bases, plus seeded random operands and random operation \
          sequences (length ≤ 12); a case is non-trivial when it is distinct (hash of the op line); outputs are the canonical integer and the raw word"
     }
 }
